@@ -87,8 +87,9 @@ def check(ctx: Ctx) -> None:
         ja = [p.summary() for p in jp]
         ps, js_ = set(map(repr, pa)), set(map(repr, ja))
         atoms += sum(len(c) + 1 for c, _ in pa)
-        if ps == js_ and len(pa) == len(ja):
-            ctx.ok('C13.R1', fi, f'{len(pa)} path(s) equal to js {jsf}', construct=f'pair:{jsf}')
+        if (ps == js_ and len(pa) == len(ja)) or norm.equivalent_paths(pa, ja):
+            ctx.ok('C13.R1', fi, f'{len(pa)} path(s) equal to js {jsf}' if ps == js_ else f'{len(pa)} python / {len(ja)} js path(s): same function of the same conditions (truth table)',
+                   construct=f'pair:{jsf}')
             samples.append({'python': pyf, 'js': jsf, 'paths': [
                 {'guards': [f'{norm.show(c)}={v}' for c, v in conds], 'result': norm.show(ret)} for conds, ret in pa][:6]})
         else:
